@@ -542,6 +542,22 @@ def derive_satsub(out):
                 g = ("le", a_, b_) if z == "eq" else ("lt", b_, a_)
                 if g not in out:
                     out.append(g)
+            if x is not None and x[0] == "bin" and x[1] == "Sub" and f[0] in ("eq", "ne"):
+                # a - b == 0 exactly when a == b (also modulo 2^64)
+                a_, b_ = unref(x[2]), unref(x[3])
+                g = (z, a_, b_)
+                if g not in out and (z, b_, a_) not in out:
+                    out.append(g)
+                    if z == "eq":
+                        out.append(("le", a_, b_))
+                        out.append(("le", b_, a_))
+    # a <= b and a != b give a < b
+    les_ = [(f[1], f[2]) for f in out if len(f) == 3 and f[0] == "le"]
+    for f in list(out):
+        if len(f) == 3 and f[0] == "ne":
+            for (p_, q_) in ((f[1], f[2]), (f[2], f[1])):
+                if (p_, q_) in les_ and ("lt", p_, q_) not in out:
+                    out.append(("lt", p_, q_))
     return out
 
 
